@@ -80,6 +80,7 @@ pub fn shape_name(s: Shape) -> &'static str {
         Shape::RawThen => "raw_then",
         Shape::CapSpecial => "cap_special",
         Shape::Placement => "placement",
+        Shape::Grid => "grid",
     }
 }
 pub fn shape_from(s: &str) -> Option<Shape> {
@@ -91,6 +92,7 @@ pub fn shape_from(s: &str) -> Option<Shape> {
         "raw_then" => Some(Shape::RawThen),
         "cap_special" => Some(Shape::CapSpecial),
         "placement" => Some(Shape::Placement),
+        "grid" => Some(Shape::Grid),
         _ => None,
     }
 }
